@@ -4,6 +4,7 @@
 -/
 import Lean.Data.Json
 import GrcVerif.Classes
+import GrcVerif.OptItems
 namespace Grc
 
 inductive OutSpec where
@@ -44,6 +45,7 @@ structure RuleIR where
   caret : Option Nat
   opt : List (Nat × Nat)
   line : Nat
+  tree : Option (List Opt.Elem) := none
 deriving Repr, Inhabited
 
 structure PassIRj where
@@ -175,6 +177,11 @@ def parseItem (j : Json) : Except String ItemIR := do
   let constraint ← if cj.isNull then pure none else some <$> parseExpr cj
   return { inCls, mod, out, assoc, attrs, constraint }
 
+partial def parseElem (j : Json) : Except String Opt.Elem := do
+  match j.getNat? with
+  | .ok n => return .item n
+  | .error _ => return .opt (← (← j.getArr?).toList.mapM parseElem)
+
 def parseRule (j : Json) : Except String RuleIR := do
   let items ← (← (← j.getObjVal? "items").getArr?).toList.mapM parseItem
   let caret ← jOptNat (j.getObjValD "caret")
@@ -185,7 +192,9 @@ def parseRule (j : Json) : Except String RuleIR := do
       if t.size != 2 then throw "bad-input: opt pair"
       pure (← jNat t[0]!, ← jNat t[1]!)
   let line ← jNat (j.getObjValD "line") <|> pure 0
-  return { items, caret, opt, line }
+  let tj := j.getObjValD "tree"
+  let tree ← if tj.isNull then pure none else some <$> (← tj.getArr?).toList.mapM parseElem
+  return { items, caret, opt, line, tree }
 
 def parseProgIR (text : String) : Except String ProgIR := do
   let j ← Json.parse text
